@@ -477,6 +477,8 @@ func appendRun(o *hx.Out, seed int, sizes []int) {
 	}
 }
 
+var ancq = flag.Int("ancq", 1, "number of queries per proof case that get the ancestor-claim tampering (all levels)")
+
 func proofCase(seed, n int, ups [][2]int, qs []int, withTampers bool, r *hx.Rng) (rec proofRec) {
 	rec = proofRec{K: "proof", Seed: seed, Ups: ups, N: n, Qs: qs, Idxs: []uint64{}, Sibs: []string{}, Tampers: []tamper{}}
 	if rec.Ups == nil {
@@ -527,11 +529,44 @@ func proofCase(seed, n int, ups [][2]int, qs []int, withTampers bool, r *hx.Rng)
 		return v
 	}
 	rec.Ver = verify(qh, proof, root)
-	if !withTampers || rec.Dup {
+	if !withTampers {
 		return rec
 	}
 	cp := func(b [][]byte) [][]byte { return append([][]byte{}, b...) }
 	oh := func(k int) []byte { return leafHash(other(seed, 1000+k)) }
+	// (also for duplicate / absent queries) a claim for an ANCESTOR index (internal / pass-through node, every level up to
+	// the child of the root) carrying the honest leaf hash, put in front, while the leaf itself is claimed with another
+	// hash: accepted if the claim for the ancestor shadows the value carried up from the false leaf claim
+	for i, q := range qs {
+		if q < 0 || i >= *ancq || i >= len(proof.Idxs) || proof.Idxs[i] == 0 {
+			continue
+		}
+		for up := uint(1); up < 64 && proof.Idxs[i]>>up >= 2; up++ {
+			q2 := append([][]byte{qh[i]}, qh...)
+			q2[i+1] = oh(i)
+			i2 := append([]uint64{proof.Idxs[i] >> up}, proof.Idxs...)
+			rec.Tampers = append(rec.Tampers, tamper{K: 6, I: i*64 + int(up), V: verify(q2, &rmt.Proof{Size: proof.Size, Idxs: i2, SiblingHashes: proof.SiblingHashes}, root)})
+		}
+	}
+	// an extra claim at an index that names no node of the tree (too short, too long, beyond the last leaf / node)
+	if n >= 1 {
+		h := uint(1)
+		if n > 1 {
+			h = uint(bits.Len64(uint64(n-1))) + 1
+		}
+		junk := []uint64{1, 3, 1<<h + uint64(n), 1 << (h + 1), 1<<(h+1) + 1}
+		if n%2 == 0 && h >= 2 {
+			junk = append(junk, 1<<(h-1)+uint64(n/2))
+		}
+		for _, j := range junk {
+			q2 := append([][]byte{oh(3)}, qh...)
+			i2 := append([]uint64{j}, proof.Idxs...)
+			rec.Tampers = append(rec.Tampers, tamper{K: 7, I: int(j), V: verify(q2, &rmt.Proof{Size: proof.Size, Idxs: i2, SiblingHashes: proof.SiblingHashes}, root)})
+		}
+	}
+	if rec.Dup {
+		return rec
+	}
 	for i, q := range qs {
 		if q < 0 {
 			continue
@@ -554,20 +589,6 @@ func proofCase(seed, n int, ups [][2]int, qs []int, withTampers bool, r *hx.Rng)
 		q2 := append([][]byte{oh(i)}, qh...)
 		i2 := append([]uint64{proof.Idxs[i]}, proof.Idxs...)
 		rec.Tampers = append(rec.Tampers, tamper{K: 4, I: i, V: verify(q2, &rmt.Proof{Size: proof.Size, Idxs: i2, SiblingHashes: proof.SiblingHashes}, root)})
-	}
-	// a claim for an ANCESTOR index (internal / pass-through node) carrying the honest leaf hash, put in front, while the
-	// leaf itself is claimed with another hash: accepted when the claim for the ancestor shadows the value carried up
-	// from the (false) leaf claim
-	for i, q := range qs {
-		if q < 0 || i > 1 {
-			continue
-		}
-		for up := uint(1); up <= 3 && proof.Idxs[i]>>up >= 2; up++ {
-			q2 := append([][]byte{qh[i]}, qh...)
-			q2[i+1] = oh(i)
-			i2 := append([]uint64{proof.Idxs[i] >> up}, proof.Idxs...)
-			rec.Tampers = append(rec.Tampers, tamper{K: 6, I: i*8 + int(up), V: verify(q2, &rmt.Proof{Size: proof.Size, Idxs: i2, SiblingHashes: proof.SiblingHashes}, root)})
-		}
 	}
 	// proof.Size is not authenticated: other sizes with the same indexes / sibling hashes
 	for _, sz := range []int{n - 1, n + 1, 2 * n, n / 2} {
@@ -902,6 +923,16 @@ func main() {
 				ups[i] = [2]int{p, 7 + i}
 			}
 			o.Put(updCase(seed, n, ups))
+			if len(ups) > 1 {
+				// the same update in descending order, and with the first position given twice (same data / other data)
+				rev := make([][2]int, len(ups))
+				for i := range ups {
+					rev[len(ups)-1-i] = ups[i]
+				}
+				o.Put(updCase(seed, n, rev))
+				o.Put(updCase(seed, n, append(append([][2]int{}, ups...), ups[0])))
+				o.Put(updCase(seed, n, append(append([][2]int{}, rev...), [2]int{ups[0][0], 99})))
+			}
 		}
 	}
 	for i := 0; i < *nupd; i++ {
